@@ -202,8 +202,11 @@ def main(argv=None):
             print(f"VIOLATION property={prop} replay={p}")
         rc = 1
     wall = time.time() - t0
-    engine.write_evidence(prop, tier, ctx, wall, len(new), old, extra=extra,
-                          seed=seed)
+    if not os.environ.get("VERIF_NO_EVIDENCE"):
+        # (seed_eval.py runs the checks against patched scratch trees and
+        # must not overwrite the evidence of the real tree)
+        engine.write_evidence(prop, tier, ctx, wall, len(new), old,
+                              extra=extra, seed=seed)
     c = ctx.counts()
     print(f"{prop} [{tier}] obligations={len(ctx.obs)} "
           f"discharged={sum(1 for o in ctx.obs if o.ok)} new={len(new)} "
